@@ -297,9 +297,8 @@ def run_human(case):
                     try:
                         lg.dump()
                         events.append({"raised": False, "left": len(lg.name_to_value)})
-                    except ValueError as e:
+                    except ValueError as e:   # (the dump is abandoned before anything is cleared)
                         events.append({"raised": True, "msg": str(e)[:80]})
-                        break
             lg.close()
         sys.stdout = old_stdout
         return {"human": True, "events": events, "log": open(os.path.join(d, "log.txt")).read(), "stdout": buf.getvalue()}
@@ -321,7 +320,8 @@ def human_plan(case):
                 pending.append(op[1])
         else:
             dumps.append((cfg, list(pending)))
-            if cfg != 50:
+            cut = [k if len(k) <= 36 else k[:33] + "..." for k in pending]
+            if cfg != 50 and len(set(cut)) == len(cut):   # a disabled or refused dump clears nothing
                 pending = []
     return logs, dumps
 
@@ -356,7 +356,8 @@ def compare_human(case, impl, mv):
             if collides and not disabled and keys:
                 if not ev["raised"]:
                     probs.append(("oracle-human-key-collision-not-refused", f"dump {r}: two keys are cut to the same text but no ValueError was raised"))
-                break
+                    break
+                continue
             if ev["raised"]:
                 probs.append(("oracle-human-dump-raises", f"dump {r}: ValueError {ev['msg']} without a key collision"))
                 break
@@ -371,7 +372,7 @@ def compare_human(case, impl, mv):
                 probs.append(("human-truncation-model", f"{fmt} dump {r}: keys shown {sorted(table)} model {sorted(shown_keys)}"))
             if any(len(k) > 36 for k in table):
                 probs.append(("oracle-human-truncation", f"{fmt} dump {r}: a shown key is longer than max_length"))
-        if tables and not any(e["raised"] for e in impl["events"]):
+        if tables:
             probs.append(("human-disabled-dump-model", f"{fmt}: {len(tables)} more tables than the model expects (a disabled logger must not write)"))
     return probs
 
